@@ -245,7 +245,11 @@ class Interp:
 
     # ---- statements (flow-sensitive, branches merged with ite) ----
     def stmts(self, stmts, env, ctx):
+        """Returns the condition under which the statement list has returned early (explicit `return` only)."""
+        ctx0 = ctx
+        div = Fa
         for st in stmts:
+            ctx = mk_and(ctx0, mk_not(div)) if div != Fa else ctx0
             k = st.get("k")
             if k == "Let":
                 pat = st["pat"]
@@ -256,14 +260,16 @@ class Interp:
                     elif ty == "bool":
                         env[pat["id"]] = self.cond(st["init"], env)
                     else:
-                        self.walk(st["init"], env, ctx)
+                        div = mk_or(div, self.walk(st["init"], env, ctx) or Fa)
                 elif st.get("init") is not None:
-                    self.walk(st["init"], env, ctx)
+                    div = mk_or(div, self.walk(st["init"], env, ctx) or Fa)
             elif k in ("Semi", "ExprStmt"):
-                self.walk(st["e"], env, ctx)
+                div = mk_or(div, self.walk(st["e"], env, ctx) or Fa)
+        return div
 
     def walk(self, n, env, ctx):
-        """Execute an expression for its effects on env / for struct constructions; returns nothing."""
+        """Execute an expression for its effects on env / for struct constructions; returns the condition under which it
+        returned early from the function (explicit `return` statements; `?` is not counted), or None/Fa."""
         n0 = n
         n = K.peel(n)
         k = n.get("k")
@@ -279,35 +285,38 @@ class Interp:
         if k == "If":
             c = self.cond(n["cond"], env)
             e1 = dict(env)
-            self.walk(n["then"], e1, mk_and(ctx, c))
+            d1 = self.walk(n["then"], e1, mk_and(ctx, c)) or Fa
             e2 = dict(env)
+            d2 = Fa
             if n.get("else") is not None:
-                self.walk(n["else"], e2, mk_and(ctx, mk_not(c)))
+                d2 = self.walk(n["else"], e2, mk_and(ctx, mk_not(c))) or Fa
             for key in set(e1) | set(e2):
                 a = e1.get(key, env.get(key))
                 b = e2.get(key, env.get(key))
                 if a is None or b is None:
                     continue
-                env[key] = mk_ite(c, a, b)
-            return
+                env[key] = b if d1 == T else (a if d2 == T else mk_ite(c, a, b))
+            return mk_ite(c, d1, d2)
         if k == "Block":
-            self.stmts(n.get("stmts", []), env, ctx)
+            d = self.stmts(n.get("stmts", []), env, ctx)
             if n.get("expr") is not None:
-                self.walk(n["expr"], env, ctx)
-            return
+                d = mk_or(d, self.walk(n["expr"], env, mk_and(ctx, mk_not(d)) if d != Fa else ctx) or Fa)
+            return d
         if k == "Match":
             arms = n["arms"]
             sc_opt = None
             if all(K.pat_variant(a["pat"]) in ("Some", "None") for a in arms):
                 sc_opt = self.opt(n["scrut"], env)
             envs = []
+            divs = []
             for i, a in enumerate(arms):
                 if sc_opt is not None:
                     c = sc_opt if K.pat_variant(a["pat"]) == "Some" else mk_not(sc_opt)
                 else:
                     c = atom("arm#%d:%s" % (i, cond_key(n["scrut"])))
                 e1 = dict(env)
-                self.walk(a["body"], e1, mk_and(ctx, c))
+                di = self.walk(a["body"], e1, mk_and(ctx, c)) or Fa
+                divs.append((c, di))
                 envs.append((c, e1))
             for key in set().union(*[set(e) for _c, e in envs]) if envs else ():
                 res = None
@@ -319,7 +328,10 @@ class Interp:
                     res = v if res is None else mk_ite(c, v, res)
                 if res is not None:
                     env[key] = res
-            return
+            dm = Fa
+            for c, di in reversed(divs):
+                dm = mk_ite(c, di, dm)
+            return dm
         if k == "Struct":
             adt = n["res"].get("def") or n["res"].get("adt") or n["res"].get("selfctor") or ""
             fields = {}
@@ -331,9 +343,10 @@ class Interp:
             for f in n["fields"]:
                 self.walk_nested(f["e"], env, ctx)
             return
-        if k == "Ret" and n.get("e") is not None:
-            self.walk(n["e"], env, ctx)
-            return
+        if k == "Ret":
+            if n.get("e") is not None:
+                self.walk(n["e"], env, ctx)
+            return Fa if (n.get("span") or {}).get("exp") else T
         if k in ("Call", "MethodCall"):
             for a in ([n.get("recv")] if n.get("recv") else []) + n.get("args", []):
                 self.walk_nested(a, env, ctx)
